@@ -538,4 +538,94 @@ func TestVerif_C19Conc(t *testing.T) {
 		directedMid++
 	}
 	out.Stat("directed-interleavings-mid", directedMid)
+
+	// several Gets released at the same instant on a bucket that has outlived its lifetime (each of
+	// them finds it expired and wants to drop it), with and without a competing clean-up or Return
+	burst := 0
+	for ci := 0; ci < n*6; ci++ {
+		r := vNewRand(uint64(1997000 + ci))
+		cfg := Config{MaxKeys: 2, MaxConnsPerKey: 3, MaxConnLifetimeSec: -1, StaleKeyLifetimeSec: 3600}
+		if r.chance(30) {
+			cfg.StaleKeyLifetimeSec = -1
+		}
+		p := New(cfg)
+		w := &v19World{}
+		logEv := func(s string) { w.mu.Lock(); w.log = append(w.log, s); w.mu.Unlock() }
+		var panics atomic.Int32
+		for i := 0; i < 1+r.intn(3); i++ {
+			c := &v19Conn{w: w, id: i, conc: true}
+			logEv(fmt.Sprintf("EGot %s %s", cN(1), cN(i)))
+			logEv(fmt.Sprintf("ERet %s %s", cN(1), cN(i)))
+			p.Return("k", c)
+		}
+		start := make(chan struct{})
+		var wg sync.WaitGroup
+		nG := 2 + r.intn(3)
+		extra := r.intn(3)
+		for g := 0; g < nG+1; g++ {
+			wg.Add(1)
+			go func(g int) {
+				defer wg.Done()
+				defer func() {
+					if e := recover(); e != nil {
+						panics.Add(1)
+					}
+				}()
+				<-start
+				if g == nG {
+					switch extra {
+					case 1:
+						p.CleanUp(ctx)
+					case 2:
+						x := &v19Conn{w: w, id: 100, conc: true}
+						logEv(fmt.Sprintf("EGot %s %s", cN(9), cN(100)))
+						logEv(fmt.Sprintf("ERet %s %s", cN(9), cN(100)))
+						p.Return("k", x)
+					}
+					return
+				}
+				c, _ := p.Get(ctx, "k")
+				if c != nil {
+					logEv(fmt.Sprintf("EGot %s %s", cN(10+g), cN(c.(*v19Conn).id)))
+					logEv(fmt.Sprintf("EUse %s %s", cN(10+g), cN(c.(*v19Conn).id)))
+				}
+			}(g)
+		}
+		// everybody queues up on the table lock and is let go at once
+		p.keysLock.Lock()
+		close(start)
+		time.Sleep(time.Millisecond)
+		p.keysLock.Unlock()
+		done := make(chan struct{})
+		go func() { wg.Wait(); close(done) }()
+		stuck := false
+		select {
+		case <-done:
+		case <-time.After(3 * time.Second):
+			stuck = true
+		}
+		if !stuck {
+			fin := make(chan struct{})
+			go func() {
+				defer func() { recover() }()
+				p.Close()
+				close(fin)
+			}()
+			select {
+			case <-fin:
+			case <-time.After(3 * time.Second):
+				stuck = true
+			}
+		}
+		time.Sleep(300 * time.Microsecond)
+		w.mu.Lock()
+		lg := cList(w.log)
+		w.mu.Unlock()
+		out.Case(fmt.Sprintf("CConc %s %s %s", lg, cN(int(panics.Load())), cBool(stuck)))
+		burst++
+		if stuck {
+			break // the pool lock is held for good; more rounds only cost time
+		}
+	}
+	out.Stat("expired-bucket-bursts", burst)
 }
